@@ -238,10 +238,10 @@ def verify_lemma(name):
                trusted=list(lem.trusted), paths=1, undecided=None, time_s=0.0, source_hash=None, span=None)
     try:
         for nm, assumptions, goal in lem.obligations():
-            inputs = {}
+            inputs = dict(getattr(lem, "model_vars", {}) or {})
             r = solve.discharge(list(assumptions), goal, inputs)
             rec = dict(ident=f"lemma:{name}::{nm}", name=nm, kind="lemma", func="lemma:" + name, line=0,
-                       status=r["status"], backend=r["backend"], time_s=round(r["time_s"], 4), model=None, meta={},
+                       status=r["status"], backend=r["backend"], time_s=round(r["time_s"], 4), model=r.get("model"), meta={},
                        tried=r.get("tried"))
             out["obligations"].append(rec)
             st = solve.is_sat(list(assumptions))
